@@ -207,6 +207,7 @@ def judge(m, resp, err, before, after):
 def jsonable(m):
     d = dict(m)
     d['body'] = None if m['body'] is None else m['body'].decode('latin-1')
+    d['query'] = [[k, str(v), isinstance(v, fuzz.RawStr)] for k, v in m['query']]
     return d
 
 
@@ -400,7 +401,7 @@ def replay(pid, path, out):
         (exotic_state if d['state'] == 'exotic' else surface.setup_state)(app)
         m = dict(d['request'])
         m['body'] = None if m['body'] is None else m['body'].encode('latin-1')
-        m['query'] = [tuple(q) for q in m['query']]
+        m['query'] = [(q[0], fuzz.RawStr(q[1]) if len(q) > 2 and q[2] else q[1]) for q in m['query']]
         b = core(app.raw_dump())
         resp, err = fuzz.issue(app, m)
         for p in judge(m, resp, err, b, core(app.raw_dump())):
